@@ -3,6 +3,7 @@
 #include "common.hpp"
 
 #include <yaclib/async/connect.hpp>
+#include <yaclib/async/make.hpp>
 #include <yaclib/async/contract.hpp>
 #include <yaclib/async/share.hpp>
 #include <yaclib/async/shared_contract.hpp>
@@ -26,13 +27,17 @@ using SF = yaclib::SharedFuture<V, E>;
 
 const char* const kOps[] = {"ReadyTouch", "GetConst",   "GetMove", "ThenInline", "ThenE",     "SubInline", "SubE",
                             "Share",      "ShareThen",  "ConnectP", "ConnectSP", "WaitTouch", "CopyDrop",  "drop",
-                            "ReadyGet",   "ThenInlineThenGet"};
+                            "ReadyGet",   "ThenInlineThenGet", "ThenInlineAsync", "ThenEAsync", "ThenInlineAsyncThrow"};
 constexpr int kNOps = sizeof(kOps) / sizeof(kOps[0]);
 
 struct Obs {
   Seen seen;
   int want = 1;
   bool ready_hit = false;
+  // continuation returning a Future (asynchronous unwrapping on a shared source): what its own future delivered
+  bool async = false;
+  bool async_throws = false;
+  Seen fin;
 };
 
 void Expect(const vx::Cell& cell, char& state, int& code) {
@@ -100,6 +105,36 @@ void Observer(const vx::Cell& cell, const std::string& op, SF sf, Obs& o, TestEx
     });
     auto r2 = std::move(f).Get();
     VX_EXPECT(r2.State() == yaclib::ResultState::Value, "observer-sees-the-value", "continuation result lost");
+  } else if (op == "ThenInlineAsync" || op == "ThenEAsync") {
+    // value callback returning a Future: runs on success, is skipped (the failure passes through) otherwise
+    o.async = true;
+    o.want = cell.Is("set", "value") ? 1 : 0;
+    auto step = [&o, &fulfilled](const V& v) {
+      VX_EXPECT(fulfilled, "observer-after-set", "callback invoked before the SharedPromise was fulfilled");
+      ++o.seen.count;
+      o.seen.state = 'V';
+      o.seen.code = v.Get();
+      return yaclib::MakeFuture<V, E>(V{v.Get() + 1});
+    };
+    auto fin = [&o](R&& r) {
+      Observe(o.fin, r);
+    };
+    if (op == "ThenInlineAsync") {
+      sf.ThenInline(step).DetachInline(fin);
+    } else {
+      sf.Then(inl, step).DetachInline(fin);
+    }
+  } else if (op == "ThenInlineAsyncThrow") {
+    o.async = true;
+    o.async_throws = true;
+    auto f = sf.ThenInline([&o, &fulfilled](const R& r) -> yaclib::Future<V, E> {
+      VX_EXPECT(fulfilled, "observer-after-set", "callback invoked before the SharedPromise was fulfilled");
+      Observe(o.seen, r);
+      throw Boom{9};
+    });
+    std::move(f).DetachInline([&o](R&& r) {
+      Observe(o.fin, r);
+    });
   } else if (op == "ThenE") {
     sf.Then(inl, cb).Detach();
   } else if (op == "SubInline") {
@@ -190,6 +225,22 @@ void RunCell(const vx::Cell& cell) {
     char who[32];
     std::snprintf(who, sizeof(who), "observer %d (%s)", i, ops[i].c_str());
     CheckSeen(cell, obs[i].seen, obs[i].want, who);
+    if (obs[i].async) {
+      // the future of the asynchronous continuation: the unwrapped inner value, the thrown exception, or the
+      // source's failure passed through
+      char st;
+      int code;
+      Expect(cell, st, code);
+      if (obs[i].async_throws) {
+        st = 'X';
+        code = 9;
+      } else if (st == 'V') {
+        code = 8;
+      }
+      VX_EXPECT(obs[i].fin.count == 1, "observer-exactly-once", "%s: the continuation's own future delivered %d time(s)", who, obs[i].fin.count);
+      VX_EXPECT(obs[i].fin.count != 1 || (obs[i].fin.state == st && obs[i].fin.code == code), "observer-sees-the-value",
+                "%s: the continuation's own future delivered (%c,%d), expected (%c,%d)", who, obs[i].fin.state, obs[i].fin.code, st, code);
+    }
     vx::Outcome("%d:%c%d%s ", i, obs[i].seen.state, obs[i].seen.code, obs[i].ready_hit ? "r" : "");
   }
 }
@@ -202,7 +253,8 @@ std::vector<std::string> Cells(int tier) {
     for (const char* keep : {"0", "1"}) {
       for (int a = 0; a < kNOps; ++a) {
         for (int b = a; b < kNOps; ++b) {
-          if (tier == 0 && std::string{set} == "exception" && !(a == b || a == 0)) {
+          const bool async_op = std::string{kOps[a]}.find("Async") != std::string::npos || std::string{kOps[b]}.find("Async") != std::string::npos;
+          if (tier == 0 && std::string{set} == "exception" && !(a == b || a == 0 || async_op)) {
             continue;
           }
           cells.push_back(std::string{"n=2,set="} + set + ",keep=" + keep + ",o0=" + kOps[a] + ",o1=" + kOps[b]);
@@ -212,7 +264,7 @@ std::vector<std::string> Cells(int tier) {
   }
   if (tier > 0) {
     // three observers over the operations that interact through the callback list and the reference count
-    const char* const three[] = {"ReadyTouch", "GetMove", "ThenInline", "SubInline", "Share", "WaitTouch", "drop"};
+    const char* const three[] = {"ReadyTouch", "GetMove", "ThenInline", "SubInline", "Share", "WaitTouch", "drop", "ThenInlineAsync"};
     for (const char* keep : {"0", "1"}) {
       for (const char* a : three) {
         for (const char* b : three) {
